@@ -253,7 +253,7 @@ static std::string enc_hunk(const Hunk& h)
     return r.str();
 }
 
-static std::string enc_patch(const Patch::Patch& p)
+static std::string enc_patch(const ::Patch::Patch& p)
 {
     std::ostringstream r;
     r << "PATCH fmt=" << string_of(p.format) << " op=" << string_of(p.operation) << " old=" << hex(p.old_file_path)
@@ -297,7 +297,7 @@ static std::string run_case(const std::vector<std::string>& t)
         bool first = true;
         std::string out;
         while (!parser.is_eof()) {
-            Patch::Patch patch(fmt_of(t[1]));
+            ::Patch::Patch patch(fmt_of(t[1]));
             PatchHeaderInfo info;
             bool should_parse_body = parser.parse_patch_header(patch, info, std::atoi(t[2].c_str()));
             if (patch.format == Format::Unknown) {
@@ -339,6 +339,48 @@ static std::string run_case(const std::vector<std::string>& t)
         bool ok = cmd == "URANGE" ? parse_unified_range(h, unhex(t[1])) : parse_normal_range(h, unhex(t[1]));
         return ok ? "RANGE " + enc_hunk(h) : "NORANGE";
     }
+    if (cmd == "ARGV" && t.size() == 4) {
+        std::vector<std::string> storage;
+        storage.push_back("patch");
+        for (const auto& a : split(t[3], ','))
+            storage.push_back(a == "." ? std::string() : unhex(a));
+        std::vector<const char*> argv;
+        for (const auto& a : storage)
+            argv.push_back(a.c_str());
+        argv.push_back(nullptr);
+        if (t[1] == "1")
+            setenv("POSIXLY_CORRECT", "1", 1);
+        else
+            unsetenv("POSIXLY_CORRECT");
+        if (t[2] == "none")
+            unsetenv("QUOTING_STYLE");
+        else
+            setenv("QUOTING_STYLE", unhex(t[2]).c_str(), 1);
+        OptionHandler handler;
+        CmdLineParser parser(static_cast<int>(storage.size()), argv.data());
+        parser.parse(handler);
+        handler.apply_defaults();
+        const auto& o = handler.options();
+        auto ob = [](Options::OptionalBool b) { return b == Options::OptionalBool::Unset ? "unset" : b == Options::OptionalBool::Yes ? "yes" : "no"; };
+        r << "OPTS b=" << o.save_backup << " c=" << o.interpret_as_context << " d=" << hex(o.patch_directory_path) << " D=" << hex(o.define_macro)
+          << " e=" << o.interpret_as_ed << " i=" << hex(o.patch_file_path) << " l=" << o.ignore_whitespace << " n=" << o.interpret_as_normal
+          << " N=" << o.ignore_reversed << " o=" << hex(o.out_file_path) << " p=" << o.strip_size << " F=" << o.max_fuzz
+          << " R=" << o.reverse_patch << " file=" << hex(o.file_to_patch) << " r=" << hex(o.reject_file_path) << " f=" << o.force << " t=" << o.batch
+          << " h=" << o.show_help << " v=" << o.show_version << " u=" << o.interpret_as_unified << " verbose=" << o.verbose << " dry=" << o.dry_run
+          << " posix=" << o.posix << " bim=" << ob(o.backup_if_mismatch) << " E=" << ob(o.remove_empty_files) << " nl="
+          << (o.newline_output == Options::NewlineOutput::Native ? "native" : o.newline_output == Options::NewlineOutput::LF ? "lf"
+                     : o.newline_output == Options::NewlineOutput::CRLF                                                         ? "crlf"
+                                                                                                                                : "keep")
+          << " rf=" << (o.reject_format == Options::RejectFormat::Context ? "context" : o.reject_format == Options::RejectFormat::Unified ? "unified" : "default")
+          << " ro=" << (o.read_only_handling == Options::ReadOnlyHandling::Warn ? "warn" : o.read_only_handling == Options::ReadOnlyHandling::Ignore ? "ignore" : "fail")
+          << " q="
+          << (o.quoting_style == Options::QuotingStyle::Unset ? "unset" : o.quoting_style == Options::QuotingStyle::Literal ? "literal"
+                     : o.quoting_style == Options::QuotingStyle::Shell                                                      ? "shell"
+                     : o.quoting_style == Options::QuotingStyle::ShellAlways                                                ? "shell-always"
+                                                                                                                            : "c")
+          << " z=" << hex(o.backup_suffix) << " B=" << hex(o.backup_prefix);
+        return r.str();
+    }
     if (cmd == "WSMATCH" && t.size() == 3)
         return matches_ignoring_whitespace(unhex(t[1]), unhex(t[2])) ? "1" : "0";
     if (cmd == "MATCH" && t.size() == 4)
@@ -373,7 +415,7 @@ static std::string run_case(const std::vector<std::string>& t)
         return r.str();
     }
     if ((cmd == "APPLY" && t.size() == 10) || (cmd == "JOIN" && t.size() == 3)) {
-        Patch::Patch patch;
+        ::Patch::Patch patch;
         Options o;
         std::vector<Line> lines;
         if (cmd == "JOIN") {
